@@ -367,6 +367,15 @@ def _sig_of(kind, data, faults, src=None):
     return None, res
 
 
+def _sig_only(kind, data, faults, src):
+    return _sig_of(kind, data, faults, src)[0]
+
+
+def _sig_public(kind, data, faults, src):
+    got, res = _sig_of(kind, data, faults, src)
+    return got, {k: res[k] for k in ("where", "steps", "budget", "outcome")}
+
+
 def minimise(case, sig):
     src = case["src"]
     data = _source_bytes(src)
@@ -376,7 +385,7 @@ def minimise(case, sig):
 
     def fails(sub):
         tests[0] += 1
-        return _sig_of(kind, data, sub, src)[0] == sig
+        return core.isolated(_sig_only, kind, data, sub, src) == sig
 
     tail = [f for f in faults if f[0] == "adler"]
     body = [f for f in faults if f[0] != "adler"]
@@ -389,7 +398,7 @@ def write_replay(case, sig, msg, info):
     if "by_sig" in case:
         case = {"seed": case["seed"], "src": case["src"], "faults": case["by_sig"][sig], "sig": sig}
     data = _source_bytes(case["src"])
-    got, res = _sig_of(case["src"]["parser"], data, case["faults"], case["src"])
+    got, res = core.isolated(_sig_public, case["src"]["parser"], data, case["faults"], case["src"])
     if got != sig:
         return None
     payload = {"property": PROP, "engine": "iosim", "seed": case["seed"], "config": {"budget": res["budget"]},
